@@ -38,6 +38,7 @@ import (
 	"github.com/krotik/ecal/interpreter"
 	"github.com/krotik/ecal/parser"
 	"github.com/krotik/ecal/stdlib"
+	"github.com/krotik/ecal/util"
 	"github.com/krotik/ecal/verifhook"
 )
 
@@ -305,14 +306,25 @@ type c12Func struct {
 }
 
 func (g *c12Func) Run(instanceID string, vs parser.Scope, is map[string]interface{}, tid uint64, args []interface{}) (interface{}, error) {
-	// occupants are told apart by thread id AND by kind of thread (a sink execution carries its
-	// monitor in the instance state): a pool worker and a directly evaluating thread that were
-	// given the same id are two occupants
-	key := tid << 1
-	if _, sink := is["monitor"]; sink {
-		key |= 1
+	// an occupant is a GOROUTINE, whatever thread id the interpreter was told: two goroutines that
+	// evaluate with one id (a generator that repeats ids, a closure that captured somebody else's
+	// id, a hard-coded id) are two occupants
+	return g.f(tid, c12Goid(), args)
+}
+
+// c12Goid returns the id of the calling goroutine (first line of its stack: "goroutine N [").
+func c12Goid() uint64 {
+	var buf [64]byte
+	b := buf[:runtime.Stack(buf[:], false)]
+	b = b[len("goroutine "):]
+	var id uint64
+	for _, c := range b {
+		if c < '0' || c > '9' {
+			break
+		}
+		id = id*10 + uint64(c-'0')
 	}
-	return g.f(tid, key, args)
+	return id
 }
 func (g *c12Func) DocString() (string, error) { return "C12 harness function", nil }
 
@@ -485,7 +497,9 @@ func c12Exec(payload string) string {
 	switch mode {
 	case "S":
 		nSink = threads
-	case "D", "G": // G = D with a debugger attached whose lock state is polled all the time
+	case "D", "G", "J": // G = D with a debugger attached whose lock state is polled all the time
+		// J = the threads are debugger clients: each evaluates its role through `inject` while a
+		// thread is suspended at a breakpoint (concurrent injections are independent threads)
 		nDirect = threads
 	default: // M, L
 		nSink = threads / 2
@@ -564,6 +578,43 @@ func c12Exec(payload string) string {
 	}
 	defer func() { close(stopPoll); pollWg.Wait() }()
 
+	var dbgJ util.ECALDebugger
+	var parkTid uint64
+	parkDone := make(chan struct{})
+	if mode == "J" {
+		dbgJ = interpreter.NewECALDebugger(vs)
+		dbgJ.BreakOnError(false) // (a raise inside a block would suspend its thread — with the lock)
+		erp.Debugger = dbgJ
+		park, perr := parser.ParseWithRuntime("park", "parked := 1\nparked := 2\n", erp)
+		if perr == nil {
+			perr = park.Runtime.Validate()
+		}
+		if perr != nil {
+			return "parse-error " + hx(perr.Error())
+		}
+		dbgJ.SetBreakPoint("park", 2)
+		parkTid = erp.NewThreadID()
+		go func() {
+			defer close(parkDone)
+			park.Runtime.Eval(vs, make(map[string]interface{}), parkTid)
+		}()
+		suspended := false
+		for k := 0; k < 5000 && !suspended; k++ {
+			if dbgJ.InjectValue(parkTid, "probe", "1") == nil {
+				suspended = true
+			} else {
+				time.Sleep(time.Millisecond)
+			}
+		}
+		if !suspended {
+			return "debugger-setup-failed: no thread suspended at the breakpoint"
+		}
+		defer func() {
+			dbgJ.Continue(parkTid, util.Resume)
+			<-parkDone
+		}()
+	}
+
 	var oldIDs []uint64
 	if mode == "L" {
 		for i := 0; i < nDirect; i++ {
@@ -621,7 +672,11 @@ func c12Exec(payload string) string {
 							}
 						}
 					}()
-					_, e = call.Runtime.Eval(vs, make(map[string]interface{}), tid)
+					if dbgJ != nil {
+						e = dbgJ.InjectValue(parkTid, fmt.Sprintf("v%d", i), fmt.Sprintf("work%d()", role))
+					} else {
+						_, e = call.Runtime.Eval(vs, make(map[string]interface{}), tid)
+					}
 					if e != nil && strings.Contains(e.Error(), "c12-uncaught") {
 						terminated()
 						e = nil
@@ -1009,6 +1064,18 @@ func init() {
 					emit("G", 16, 150, "an()bn()|bn(cn())")
 					g.Count("debugger lock state polled")
 				}
+			}
+			// debugger clients: concurrent `inject` commands are independent threads. (Not run while
+			// InjectValue evaluates with a literal thread id — see the fact literalTids and
+			// fixes/C12-inject-own-thread-id.patch — every such case shows the defect.)
+			if lt, err := c12LiteralTids(); err == nil && len(lt) == 0 {
+				for _, n := range []int{2, 8, 16} {
+					emit("J", n, 6, "an(an())ae()|bn()ar(cn())")
+					emit("J", n, 8, "an()")
+					g.Count("concurrent debugger injections")
+				}
+			} else {
+				g.Count("concurrent debugger injections NOT RUN: literal thread id in the tree")
 			}
 			// an error / a Go panic that ENDS the thread while it holds the lock (nested too)
 			for _, mode := range []string{"D", "S", "M", "L"} {
